@@ -820,6 +820,39 @@ func c07RefreshVsExpiryDir(kind string, p2c bool) *sched.Scenario {
 
 // ---------------------------------------------------------------- C19
 
+// c19ErrorPreparedBeforeSlowGenerator: over a stream listener every connection has its own goroutine. c1's
+// Allocate sits in a relay address generator that takes 1 s and then fails (508); c2's Binding request is served
+// meanwhile. Every response carries the transaction id of the request it answers, whoever else was served in between.
+func c19ErrorPreparedBeforeSlowGenerator() *sched.Scenario {
+	return &sched.Scenario{Name: "c19-error-response-prepared-before-a-slow-generator", Bound: bound(), FreeBound: 3, Opt: opt,
+		Body: func(*vsched.Sched) (func() []string, func()) {
+			w := sched.NewBW(sched.BCfg{Stream: true, SlowAlloc: time.Second, FailAlloc: true})
+			c1, c2 := w.NewClient("c1"), w.NewClient("c2")
+			var nt notes
+			vsched.Go("c1", func() {
+				r := c1.Do(wire.Allocate, udp) // 401, then the signed request: 1 s in the generator, 508
+				nt.set("c1", fmt.Sprintf("%d/%d", r.Class, r.ErrorCode()))
+			})
+			vsched.Go("c2", func() {
+				vsched.IdleSleep(500 * time.Millisecond)
+				r := c2.Do(wire.Binding, nil)
+				nt.set("c2", fmt.Sprintf("%d/%d", r.Class, r.ErrorCode()))
+			})
+			vsched.Go("driver", func() { vsched.IdleSleep(3 * time.Second) })
+
+			return func() []string {
+				var out []string
+				if nt.get("c1") != fmt.Sprintf("%d/508", wire.Error) {
+					out = append(out, "c19:allocate-with-failing-generator-not-answered-508:"+nt.get("c1"))
+				}
+				if nt.get("c2") != fmt.Sprintf("%d/0", wire.Success) {
+					out = append(out, "c19:binding-during-another-clients-slow-allocate-not-answered:"+nt.get("c2"))
+				}
+				return out
+			}, func() { _ = w.Srv.Close() }
+		}}
+}
+
 // c19RetransmitDuringSlowAllocate: an Allocate whose relay socket takes 1 s to create, retransmitted
 // (same transaction id) three times meanwhile, as a client with a 200 ms RTO does. One allocation and one
 // relay socket result, and every answer to that transaction names the same relayed address.
@@ -888,7 +921,9 @@ func run(t *testing.T, prop string, scs ...*sched.Scenario) {
 func TestC02Sched(t *testing.T) {
 	run(t, "C02", c02ExpiryRace(), c07RefreshVsExpiryDir("perm", true))
 }
-func TestC19Sched(t *testing.T) { run(t, "C19", c19RetransmitDuringSlowAllocate()) }
+func TestC19Sched(t *testing.T) {
+	run(t, "C19", c19RetransmitDuringSlowAllocate(), c19ErrorPreparedBeforeSlowGenerator())
+}
 func TestC07Sched(t *testing.T) { run(t, "C07", c07RefreshVsExpiry("perm"), c07RefreshVsExpiry("chan")) }
 func TestC06Sched(t *testing.T) { run(t, "C06", c06Realloc(), c06ReallocVsTimer(), c06Reconnect(), c06RefreshVsExpiry()) }
 func TestC04Sched(t *testing.T) { run(t, "C04", c04TwoConns()) }
